@@ -4426,14 +4426,23 @@ static Value eval_statement(ASTNode *stmt, Environment *env) {
         }
 
         case AST_BLOCK: {
+            /* A block is a scope: what it declares ends with it, so that a name it shadowed means
+             * the outer variable again afterwards (as in compiled code).  The values are left to
+             * the collector / the end of the run: the block's result may still refer to them. */
+            int scope_mark = env->symbol_count;
             Value result = create_void();
             for (int i = 0; i < stmt->as.block.count; i++) {
                 result = eval_statement(stmt->as.block.statements[i], env);
                 /* If statement returned a value, propagate it immediately */
                 if (result.is_return || result.is_break || result.is_continue) {
-                    return result;
+                    break;
                 }
             }
+            for (int i = scope_mark; i < env->symbol_count; i++) {
+                free(env->symbols[i].name);
+                env->symbols[i].name = NULL;
+            }
+            if (env->symbol_count > scope_mark) env->symbol_count = scope_mark;
             return result;
         }
 
